@@ -28,7 +28,12 @@ pub fn main() {
             let n: usize = args[5].parse().unwrap();
             let vd = shard::verif_dir();
             let all = known::load(&vd.join("KNOWN_FINDINGS.txt")).unwrap_or_default();
+            let mut foreign: Vec<String> = all.iter().filter(|k| k.is_known && &k.property != id).map(|k| k.key.clone()).collect();
             let kn: Vec<_> = all.into_iter().filter(|k| &k.property == id).collect();
+            foreign.retain(|f| !kn.iter().any(|k| k.is_known && &k.key == f));
+            foreign.sort();
+            foreign.dedup();
+            std::env::set_var("H8V_FOREIGN_KEYS", foreign.join(","));
             match props::build(id, tier, shard::seed(), &kn) {
                 Some(p) => {
                     let out = match args.get(6) {
@@ -134,6 +139,7 @@ fn replay(path: &PathBuf) -> i32 {
             ctx.frozen = false;
             let all = known::load(&shard::verif_dir().join("KNOWN_FINDINGS.txt")).unwrap_or_default();
             ctx.known_keys = all.iter().filter(|k| k.is_known && k.property == prop).map(|k| k.key.clone()).collect();
+            ctx.foreign_keys = all.iter().filter(|k| k.is_known && k.property != prop && !ctx.known_keys.contains(&k.key)).map(|k| k.key.clone()).collect();
             ctx.panic_only = prop == "C15";
             ctx.cycles_only = prop == "C20";
             if v["case"]["regen"]["oracle"] == "c05-nesting" {
@@ -141,14 +147,8 @@ fn replay(path: &PathBuf) -> i32 {
                 super::props::flow::replay_nesting(&mut ctx, &v["case"]["regen"]);
             } else if let Some(seq) = v["case"]["sequence"].as_array() {
                 // a recorded history: replay exactly the same actions in lock step with the reference
-                let acts: Vec<super::e1::Act> = seq
-                    .iter()
-                    .filter_map(|s| s.as_str())
-                    .map(|s| match s.split_once(':') {
-                        Some((_, a)) if a.starts_with("irq") => super::e1::Act::Irq(a[3..].parse().unwrap_or(0)),
-                        _ => super::e1::Act::Step,
-                    })
-                    .collect();
+                let acts: Vec<super::e1::Act> = seq.iter().filter_map(|s| s.as_str()).map(super::e1::Act::parse).collect();
+                ctx.track_queue = v["case"]["track_queue"].as_bool().unwrap_or(false);
                 if !acts.is_empty() {
                     let mut k = 0usize;
                     let first = acts[0];
